@@ -914,15 +914,9 @@ func (p *InlineParser) parseEndBracket(state *inlineState, start int) (end int) 
 		// Full reference link.
 		label := parseLinkLabel(newInlineByteReader(state.source, state.unparsed[state.unparsedPos:], start+1))
 		if !label.span.IsValid() {
-			state.addToRoot(&Inline{
-				kind: TextKind,
-				span: Span{
-					Start: start,
-					End:   start + 1,
-				},
-			})
-			state.stack = deleteDelimiterStack(state.stack, openDelimIndex, openDelimIndex+1)
-			return start + 1
+			// What follows is not a link label,
+			// so this can still be a shortcut reference link.
+			return p.parseShortcutReference(state, kind, openDelimIndex, start)
 		}
 		inlineLabel := &Inline{
 			kind: LinkLabelKind,
@@ -961,37 +955,41 @@ func (p *InlineParser) parseEndBracket(state *inlineState, start int) (end int) 
 		}
 		return linkNode.span.End
 	default:
-		// Shortcut reference link.
-
-		// Since we're backtracking, we use the full state.unparsed rather than a slice.
-		labelSpan := Span{
-			Start: state.stack[openDelimIndex].node.Span().End,
-			End:   start,
-		}
-		normalizedLabel := transformLinkReferenceSpan(state.source, state.unparsed, labelSpan)
-		if p.ReferenceMatcher == nil ||
-			!fitsLinkLabel(state.source, state.unparsed, labelSpan) ||
-			!p.ReferenceMatcher.MatchReference(normalizedLabel) {
-			state.addToRoot(&Inline{
-				kind: TextKind,
-				span: Span{
-					Start: start,
-					End:   start + 1,
-				},
-			})
-			state.stack = deleteDelimiterStack(state.stack, openDelimIndex, openDelimIndex+1)
-			return start + 1
-		}
-
-		linkNode := state.wrap(kind, state.stack[openDelimIndex].node, nil)
-		linkNode.ref = normalizedLabel
-		linkNode.span = Span{
-			Start: state.stack[openDelimIndex].node.span.Start,
-			End:   start + 1,
-		}
-		p.finishLink(state, kind, openDelimIndex)
-		return linkNode.span.End
+		return p.parseShortcutReference(state, kind, openDelimIndex, start)
 	}
+}
+
+// parseShortcutReference handles a closing bracket at start
+// that is followed by neither an inline link tail nor a link label.
+func (p *InlineParser) parseShortcutReference(state *inlineState, kind InlineKind, openDelimIndex int, start int) (end int) {
+	// Since we're backtracking, we use the full state.unparsed rather than a slice.
+	labelSpan := Span{
+		Start: state.stack[openDelimIndex].node.Span().End,
+		End:   start,
+	}
+	normalizedLabel := transformLinkReferenceSpan(state.source, state.unparsed, labelSpan)
+	if p.ReferenceMatcher == nil ||
+		!fitsLinkLabel(state.source, state.unparsed, labelSpan) ||
+		!p.ReferenceMatcher.MatchReference(normalizedLabel) {
+		state.addToRoot(&Inline{
+			kind: TextKind,
+			span: Span{
+				Start: start,
+				End:   start + 1,
+			},
+		})
+		state.stack = deleteDelimiterStack(state.stack, openDelimIndex, openDelimIndex+1)
+		return start + 1
+	}
+
+	linkNode := state.wrap(kind, state.stack[openDelimIndex].node, nil)
+	linkNode.ref = normalizedLabel
+	linkNode.span = Span{
+		Start: state.stack[openDelimIndex].node.span.Start,
+		End:   start + 1,
+	}
+	p.finishLink(state, kind, openDelimIndex)
+	return linkNode.span.End
 }
 
 func (p *InlineParser) finishLink(state *inlineState, kind InlineKind, openDelimIndex int) {
